@@ -36,6 +36,17 @@ THEOREMS = [
     "Qentem.Props.C20.utf32_encode",
     "Qentem.Props.C20.utf32_decode_encode",
     "Qentem.Props.C20.toUTF_decode",
+    "Qentem.Props.C20.hex4_value",
+    "Qentem.Props.C20.hex4_roundtrip",
+    "Qentem.Props.C20.hexToNumber_hex4",
+    "Qentem.Props.C20.surrogate_pair",
+    "Qentem.Props.C20.high_surrogate_test",
+    "Qentem.Props.C20.unEscape_never_faults",
+    "Qentem.Props.C20.unEscapeA_eq_suffix_model",
+    "Qentem.Props.C20.unescape_u_digits_in_context",
+    "Qentem.Props.C20.unescape_pair_digits_in_context",
+    "Qentem.Props.C20.unescape_u_in_context",
+    "Qentem.Props.C20.unescape_u_decodes",
     "Qentem.Props.C20.constants_match",
 ]
 BATCH = 512
